@@ -12,7 +12,7 @@ PROP = dict(
             "statement failures are injected by a database/sql driver wrapping mattn/go-sqlite3 (harness/src/vhfault); a failed COMMIT is rolled back",
             "contract status / proof-window conditions of isGoodForModification are held constant (chain engine, C06)",
         ],
-        level_text="Lean theorems over the executable model of ContractUpdater, Store.ReviseContract's replay, updateV2ContractSectors, Commit/ReviseV2Contract glue, renewals and restart: for every action list the updater's private copy equals the store's replay (no reject when appended/updated roots are stored), rows stay contiguous, the v2 diff writer yields exactly the new list, accepted commits persist filesize = sectorSize*len and merkleRoot = metaRoot(list), a failure at any statement index changes nothing, restart serves the same lists, and for every history over many contracts the persisted list, the cached list and the list implied by the accepted modifications coincide for every non-superseded contract. The model is tied to the code by replaying seeded histories executed on the real contracts.Manager + sqlite.Store (fault-injecting SQL driver, fresh NewManager) through the compiled model driver, with the clauses also evaluated as monitors on the implementation's own observations",
+        level_text="Lean theorems over the executable model of ContractUpdater, Store.ReviseContract's replay, updateV2ContractSectors, Commit/ReviseV2Contract glue, renewals and restart: for every action list the updater's private copy equals the store's replay (no reject when appended/updated roots are stored), rows stay contiguous, the v2 diff writer yields exactly the new list, accepted commits persist filesize = sectorSize*len and merkleRoot = metaRoot(list), a failure at any statement index changes nothing, restart serves the same lists, what Lock/ReviseContract resp. LockV2Contract hand to a session (also to a caller that queued behind a holder who revised, failed or renewed: lock hand-off) is the persisted list together with the revision that commits to it, and for every history over many contracts the persisted list, the cached list and the list implied by the accepted modifications coincide for every non-superseded contract. The model is tied to the code by replaying seeded histories executed on the real contracts.Manager + sqlite.Store (fault-injecting SQL driver, fresh NewManager) through the compiled model driver, with the clauses also evaluated as monitors on the implementation's own observations",
         level_note="trusted: Lean kernel (+propext, Quot.sound, Classical.choice), MetaRoot/signatures opaque, SQLite rollback atomicity, harness canonicalisation",
         assumptions=["scope: contracts not superseded by a renewal (the cache keeps the predecessor's list after a renewal, DESIGN §6.5)",
                      "one Commit per ContractUpdater (as every RPC handler does); a second Commit on the same updater replays from stale oldRoots and is outside the property",
